@@ -1791,7 +1791,7 @@ func funcGetpath(v, p any) any {
 	u := v
 	for _, x := range path {
 		switch v.(type) {
-		case nil, []any, map[string]any:
+		case nil, string, []any, map[string]any:
 			v = funcIndex2(nil, v, x)
 			if err, ok := v.(error); ok {
 				return &func1WrapError{"getpath", u, p, err}
